@@ -38,6 +38,9 @@ pub struct WorldSpec {
     pub rewards: Vec<RewardSpec>,
     /// poke p1 for rewards: initial growth_global of each reward
     pub reward_growth0_hi: u8,
+    /// 0 = both mints SPL Token; 1 = both Token-2022 (no extensions); 2 = one of each
+    #[serde(default)]
+    pub mint_kind: u8,
 }
 
 #[derive(Clone, Debug, Serialize, Deserialize, Hash, PartialEq, Eq)]
@@ -170,8 +173,8 @@ impl Hist {
         let cfg = w.init_config(spec.protocol_fee_rate.min(2500));
         let ix = w.ix_init_fee_tier(cfg, spec.tick_spacing, spec.fee_rate.min(60000));
         w.must("initialize_fee_tier", &ix);
-        let m1 = w.create_spl_mint();
-        let m2 = w.create_spl_mint();
+        let m1 = if spec.mint_kind == 1 { w.create_t22_mint(None) } else { w.create_spl_mint() };
+        let m2 = if spec.mint_kind >= 1 { w.create_t22_mint(None) } else { w.create_spl_mint() };
         let pool = w.init_pool(cfg, &m1, &m2, spec.tick_spacing, start_sqrt_price(spec)).ok()?;
         // poke p1: accumulators of a pool without positions may start anywhere
         {
@@ -348,8 +351,32 @@ impl Hist {
         }
     }
 
+    pub fn needs_v2(&self) -> bool {
+        let p = &self.w.pools[self.pool];
+        p.mint_a.program != TOKEN || p.mint_b.program != TOKEN
+    }
+
     /// Execute one op.  A rejected instruction leaves the world unchanged.
+    /// On pools with a Token-2022 mint the v1 instruction variants cannot be used; the v2 variant is sent instead.
     pub fn exec(&mut self, op: &Op) -> OpResult {
+        if self.needs_v2() {
+            let forced = match op.clone() {
+                Op::Increase { pos, liquidity, variant: IncVariant::V1 } => Some(Op::Increase { pos, liquidity, variant: IncVariant::V2 }),
+                Op::Decrease { pos, amount, v2: false } => Some(Op::Decrease { pos, amount, v2: true }),
+                Op::Swap { trader, a_to_b, exact_in, amount, limit, v2: false } => Some(Op::Swap { trader, a_to_b, exact_in, amount, limit, v2: true }),
+                Op::SwapBack { trader, exact_in, delta, v2: false } => Some(Op::SwapBack { trader, exact_in, delta, v2: true }),
+                Op::CollectFees { pos, v2: false } => Some(Op::CollectFees { pos, v2: true }),
+                Op::CollectProtocolFees { v2: false } => Some(Op::CollectProtocolFees { v2: true }),
+                _ => None,
+            };
+            if let Some(f) = forced {
+                return self.exec_inner(&f);
+            }
+        }
+        self.exec_inner(op)
+    }
+
+    fn exec_inner(&mut self, op: &Op) -> OpResult {
         let mut res = OpResult { did: Did::Vacuous, outcome: None, pos: None, user: None, swap: None, liquidity_delta: 0, repositioned_from: None };
         let open = self.open_positions();
         let pick_pos = |i: u16| -> Option<usize> { if open.is_empty() { None } else { Some(open[pick(i, open.len())]) } };
@@ -616,6 +643,7 @@ pub fn spec_strategy(with_rewards: bool, wrap_bias: bool) -> BoxedStrategy<World
             growth_b0,
             rewards,
             reward_growth0_hi: rg,
+            mint_kind: 0,
         })
         .boxed()
 }
